@@ -2,6 +2,8 @@ import JominiModel.Model.Json
 import JominiModel.Spec.Json
 import JominiModel.Proofs.JsonRender
 import JominiModel.Proofs.JsonNarrow
+import JominiModel.Proofs.JsonDom
+import JominiModel.Proofs.JsonGroup
 /-
 C16 — JSON conversion is valid JSON and carries the document's content.
 Only property theorems live here; helper lemmas are in `Proofs/Json*.lean`.
@@ -113,5 +115,83 @@ example : narrowScalar ⟨false, .preserve, .all⟩ .w1252 true [57, 48, 48, 55,
     .str [57, 48, 48, 55, 49, 57, 57, 50, 53, 52, 55, 52, 48, 57, 57, 50] := by rfl   -- "9007199254740992" = 2^53
 example : narrowScalar ⟨false, .preserve, .unquoted⟩ .utf8 false [45, 52, 50] = .int (-42) := by rfl
 example : narrowScalar ⟨false, .preserve, .unquoted⟩ .utf8 true [45, 52, 50] = .str [45, 52, 50] := by rfl
+
+/-! ### duplicate keys: Group / Preserve / KeyValuePairs
+
+`fs` is the list of `(key, op, value)` items that `reader.fields()` yields (`fieldsAll`), `sv`
+the serializer of one value (`serValue … fuel`), `val fe` its result on the value of `fe`.
+The theorems hold for EVERY token list and field list on which the values serialize — no
+well-formedness hypothesis is needed. -/
+
+/-- Group mode loses nothing and invents nothing.  The entries written are exactly the
+stable grouping of the field list by the raw key bytes (`kb`): each distinct key once, in
+order of first appearance, under the JSON text of its first occurrence's key; a key that
+occurs once carries its value, a key that occurs several times the array of ALL its values
+in document order (operators kept as single-entry objects by `wrapOp`).  The groups
+partition the field list (`Perm`), each group is precisely the fields with that key in
+their original order, and no key is written twice. -/
+theorem C16_group_lossless (sv : Nat → R JVal) (enc : Enc) (fs : List FieldE) (val : FieldE → JVal)
+    (hsv : ∀ fe ∈ fs, sv fe.valIdx = .ok (val fe)) :
+    groupEntries sv enc fs (buildGroups fs) = .ok ((stableGroupBy kb fs).map (groupJson enc val)) ∧
+    ((stableGroupBy kb fs).flatMap (fun g => g.1 :: g.2)).Perm fs ∧
+    (∀ g ∈ stableGroupBy kb fs, g.1 :: g.2 = fs.filter (fun y => decide (kb y = kb g.1))) ∧
+    (stableGroupBy kb fs).Pairwise (fun g h => kb g.1 ≠ kb h.1) := by
+  refine ⟨?_, stableGroupBy_perm kb _ fs (Nat.le_refl _), stableGroupBy_filter kb _ fs (Nat.le_refl _),
+    stableGroupBy_distinct kb _ fs (Nat.le_refl _)⟩
+  rw [groupEntries_eq sv enc _ fs (Nat.le_refl _)]
+  apply renderGroups_ok
+  intro g hg fe hfe
+  exact hsv fe (stableGroupBy_mem kb _ fs (Nat.le_refl _) g hg fe hfe)
+
+/-- Without the hypothesis that the values serialize: the Group arm is, outcome for outcome
+(including which failure is reported first), the in-order rendering of the stable grouping. -/
+theorem C16_group_is_stable_grouping (sv : Nat → R JVal) (enc : Enc) (fs : List FieldE) :
+    groupEntries sv enc fs (buildGroups fs) = renderGroups sv enc (stableGroupBy kb fs) :=
+  groupEntries_eq sv enc _ fs (Nat.le_refl _)
+
+/-- Preserve and KeyValuePairs write one entry per field, in document order, duplicate keys
+kept: `(key text, value)` with the operator wrapped around the value. -/
+theorem C16_preserve_fields (sv : Nat → R JVal) (enc : Enc) (fs : List FieldE) (val : FieldE → JVal)
+    (hsv : ∀ fe ∈ fs, sv fe.valIdx = .ok (val fe)) :
+    entriesOf sv enc fs = .ok (fs.map (fun fe => (keyJson enc fe.keyTok, wrapOp fe.op (val fe)))) :=
+  entriesOf_ok sv enc val fs hsv
+
+/-- The object serializer in terms of the field list: with `fields()` = `fs` (ending at
+`last`), every value serializing to `val fe` and the trailing array part to `r`,
+* Preserve writes the fields in order (+ the `"remainder"` entry),
+* KeyValuePairs writes `{"type":"obj","val":[[key,value]…, remainder?]}` in order,
+* Group writes the stable grouping (+ the `"remainder"` entry). -/
+theorem C16_object_modes (sv : Nat → R JVal) (enc : Enc) (t : Tape) (o : Opts) (s e : Nat)
+    (fs : List FieldE) (last : Nat) (val : FieldE → JVal) (r : Option JVal)
+    (hf : fieldsAll t s e = .ok (fs, last))
+    (hsv : ∀ fe ∈ fs, sv fe.valIdx = .ok (val fe))
+    (hr : remainderJson sv enc t last e = .ok r) :
+    objectJson sv enc t o s e = .ok (
+      match o.dup with
+      | .preserve =>
+        .obj (fs.map (fun fe => (keyJson enc fe.keyTok, wrapOp fe.op (val fe))) ++
+              (match r with | none => [] | some x => [(kRemainder, x)]))
+      | .kvp =>
+        .obj [(kType, .str kObj),
+              (kVal, .arr (fs.map (fun fe => JVal.arr [.str (keyJson enc fe.keyTok), wrapOp fe.op (val fe)]) ++
+                           (match r with | none => [] | some x => [x])))]
+      | .group =>
+        .obj ((stableGroupBy kb fs).map (groupJson enc val) ++
+              (match r with | none => [] | some x => [(kRemainder, x)]))) := by
+  have hg := (C16_group_lossless sv enc fs val hsv).1
+  have hp := C16_preserve_fields sv enc fs val hsv
+  have hl := fieldsLen_of_fieldsAll t s e fs last hf
+  cases hd : o.dup <;> cases r <;>
+    simp [objectJson, objectShape, hd, hf, hl, hg, hp, hr, List.map_map, Function.comp_def]
+
+/-- hypotheses satisfiable: `a=1 b=2 a=3` in Group mode is `{"a":[1,3],"b":2}` -/
+example :
+    objectJson (serValue ⟨false, .group, .all⟩ .utf8
+        #[.unquoted [97], .unquoted [49], .unquoted [98], .unquoted [50], .unquoted [97], .unquoted [51]] 1)
+      .utf8 #[.unquoted [97], .unquoted [49], .unquoted [98], .unquoted [50], .unquoted [97], .unquoted [51]]
+      ⟨false, .group, .all⟩ 0 6 =
+    .ok (.obj [([97], .arr [.int 1, .int 3]), ([98], .int 2)]) := by rfl
+
+example : stableGroupBy (fun n : Nat => n % 2) [1, 2, 3, 4, 5] = [(1, [3, 5]), (2, [4])] := by rfl
 
 end Jomini.Props.C16
